@@ -157,6 +157,44 @@ def run_pass_kill(res, ast):
                     return False
                 need(v, dst_removed, f"`{setname}.remove(cell)` for the destination when it is a tape cell")
             # branch targets
+            # read-and-zero goes to the operand the ops read LAST: with both sources naming the same cell, an earlier read-and-zero would make the
+            # later read see 0.  Reader: bcint ops add2/sub2/mul2 read Src0 before Src1.  Writer: the pass visits the sources one by one and the first
+            # visit that finds the pending zeroing takes it (zerod.remove), so it must visit src1 before src0.
+            try:
+                OPSF = "src/exec/bcint/ops.rs"
+                read_first = set()
+                for opn in ("add2", "sub2", "mul2"):
+                    of = ast.fn(OPSF, opn)["node"]
+                    gens = [g["name"] for g in of["sig"]["generics"]["params"] if g["t"] == "TypeParam"]
+                    srcs = [g for g in gens if g.lower().startswith("src")]
+                    reads_ = [path_name(strip_paren(c_["func"])).split("::")[0] for c_ in walk_t(of["body"], "Call")
+                              if (path_name(strip_paren(c_["func"])) or "").endswith("::read") and path_name(strip_paren(c_["func"])).split("::")[0] in srcs]
+                    if len(srcs) == 2 and reads_[:2] == srcs:
+                        read_first.add("src0")
+                    elif len(srcs) == 2 and reads_[:2] == srcs[::-1]:
+                        read_first.add("src1")
+                    else:
+                        read_first.add("?")
+                okmz, why_mz = False, "the visiting order of the two sources could not be determined (fail closed)"
+                if read_first == {"src0"} or read_first == {"src1"}:
+                    first_read = 1 if read_first == {"src0"} else 2          # position in Instr::Add(dst, src0, src1)
+                    for v in ("Add", "Sub", "Mul"):
+                        for a_, names_ in cov.get(v, []):
+                            if len(names_) != 3:
+                                continue
+                            for lp in walk_t(a_["body"], "ForLoop"):
+                                it_ = strip_paren(lp["expr"])
+                                if it_["t"] == "Array" and len(it_["elems"]) == 2:
+                                    order = [path_name(strip_paren(x)) for x in it_["elems"]]
+                                    if set(order) == {names_[1], names_[2]}:
+                                        visited_first = 1 if order[0] == names_[1] else 2
+                                        okmz = visited_first != first_read
+                                        why_mz = f"the sources are visited in the order {order}: the one the ops read first would take the read-and-zero marker"
+                res.check(okmz, "PASS-KILL", f"{BC}|{fname}|memzero-order", w0,
+                          "zeroing_move_detection must offer the pending zeroing to the source operand that the ops read last (src1) before the one they read "
+                          "first: with both sources on the same cell the earlier read-and-zero would zero it under the later read; " + why_mz)
+            except Missing as m_:
+                res.missing("PASS-KILL", m_)
             # the reset at branch targets must be reached in *every* iteration (must-pass-through): it is a top-level statement of the loop body over
             # the instruction index, and nothing before it can leave the iteration (continue / break / return)
             okbt, why_bt = False, "no `if self.is_target[i] { pending.clear() }` at the top level of the instruction loop"
